@@ -188,8 +188,43 @@ func init() {
 				"counter c\n/(\\d+)/ {\n  strptime(len($1), \"2006\")\n  c++\n}\n",
 				"counter c\n/(\\d+\\.\\d+)/ {\n  strptime($1 * 2.0, \"2006\")\n  c++\n}\n",
 				"counter c\ngauge g\n/(\\d+)/ {\n  g = $1\n  strptime(g, \"2006\")\n  c++\n}\n",
+				// ... and the second round: a pattern as the argument of a builtin, a call that returns
+				// nothing as an index key, as an argument, as the text of a match
+				"counter x by k\n/foo/ {\n  x[settime(3)]++\n}\n",
+				"counter c\nlen(/foo/) > 0 {\n  c++\n}\n",
+				"gauge g\n/foo/ {\n  g = strtol(/foo/, 10)\n}\n",
+				"counter c\n/foo/ && bool(settime(1)) {\n  c++\n}\n",
+				"counter c\n/foo/ {\n  settime(1) =~ /x/ {\n    c++\n  }\n}\n",
 			} {
-				g.emit(vmCase{"-", p, []string{"2020", "20.5", "x", "1999"}}.fields()...)
+				g.emit(vmCase{"-", p, []string{"2020", "20.5", "x", "1999", "foo"}}.fields()...)
+			}
+			// every expression that has no value (a pattern, a pattern constant, a call that returns
+			// nothing) in every place that takes a value: each argument of each builtin, an index key,
+			// the text of a match, an operand, an assigned value
+			type bi struct {
+				name string
+				args []string
+				ret  byte
+			}
+			builtins := []bi{{"int", []string{"$1"}, 'i'}, {"bool", []string{"$1"}, 'b'}, {"float", []string{"$1"}, 'i'}, {"string", []string{"$1"}, 's'},
+				{"len", []string{"$1"}, 'i'}, {"settime", []string{"$1"}, 'n'}, {"strptime", []string{"\"2006\"", "\"2006\""}, 'n'},
+				{"strtol", []string{"$1", "10"}, 'i'}, {"tolower", []string{"$1"}, 's'}, {"subst", []string{"\"0\"", "\"1\"", "$1"}, 's'}}
+			valueless := []string{"/x/", "FOO", "settime(1)", "strptime(\"2006\", \"2006\")", "FOO + /y/"}
+			head := "const FOO /o+/\ngauge g\ntext t\ncounter c by k\n/(\\d+)/ {\n  "
+			for _, v := range valueless {
+				for _, f := range builtins {
+					for i := range f.args {
+						args := append([]string{}, f.args...)
+						args[i] = v
+						call := f.name + "(" + strings.Join(args, ", ") + ")"
+						use := map[byte]string{'i': "g = " + call, 's': "t = " + call, 'n': call, 'b': "$1 > 0 && " + call + " {\n    g = 1\n  }"}[f.ret]
+						g.emit(vmCase{"-", head + use + "\n}\n", []string{"2020", "7", "x"}}.fields()...)
+					}
+				}
+				for _, use := range []string{"c[" + v + "]++", "del c[" + v + "]", "c[$1] = " + v, "g = 1 + " + v, v + " =~ /2/ {\n    g = 2\n  }", v + " !~ /2/ {\n    g = 3\n  }",
+					"$1 =~ " + v + " {\n    g = 4\n  }", v + " > 1 {\n    g = 5\n  }", v + " {\n    g = 6\n  }", "g = " + v, "t = " + v, v + " || $1 > 3 {\n    g = 7\n  }", "del c[$1] after " + v} {
+					g.emit(vmCase{"-", head + use + "\n}\n", []string{"2020", "7", "x"}}.fields()...)
+				}
 			}
 		},
 		run: c04Run,
